@@ -9,17 +9,15 @@ From BV Require Import Base.Prelude Redir.FdTable Redir.Apply Redir.Spec Redir.P
     list to the layer (the model of brush's setup_redirect loop) and applying it with
     open/dup2/close to the flat table T (the POSIX/bash specification) give the same file
     system, the same failure (if any) and tables with the same flat view - strictly left to
-    right, so `2>&1 >f` and `>f 2>&1` differ exactly as in the specification.  Outside the two
-    listed deviation classes (`&>f` on an existing regular file under noclobber; `n>&n` on a
-    closed n). *)
-Theorem c10_layered_refines_flat_outside_known : forall rs nc P w L T,
+    right, so `2>&1 >f` and `>f 2>&1` differ exactly as in the specification.  Unconditional
+    since the repairs 77f6cd7 (&> honours noclobber) and 3653826 (n>&n). *)
+Theorem c10_layered_refines_flat : forall rs nc P w L T,
   agree T L P ->
-  both_clobber nc w T rs = false -> selfdup_closed nc w T rs = false ->
   let '(w1, L1, e1) := apply_redirs nc P w L rs in
   let '(w2, T2, e2) := spec_apply nc w T rs in
   w1 = w2 /\ e1 = e2 /\ agree T2 L1 P.
 Proof. exact layered_refines_flat. Qed.
-Print Assumptions c10_layered_refines_flat_outside_known.
+Print Assumptions c10_layered_refines_flat.
 
 Theorem c10_order_matters :
   let a := apply_redirs false ex_tbl ex_world [] [RDup (Some 2%nat) true 1%nat; RFile None RWrite 4%nat] in
@@ -42,7 +40,6 @@ Print Assumptions c10_shell_table_untouched.
 
 (** `exec rs` at the top level makes exactly the specification's table the shell's table. *)
 Theorem c10_exec_persists : forall nc m rs w P,
-  both_clobber nc w P rs = false -> selfdup_closed nc w P rs = false ->
   let '(w1, P1, f) := run_cmd nc m (CExec rs) w P [] in
   let '(w2, T2, e) := spec_apply nc w P rs in
   e = None -> w1 = w2 /\ f = FNormal /\ forall n, flat_lookup P1 n = flat_lookup T2 n.
@@ -52,8 +49,9 @@ Print Assumptions c10_exec_persists.
 (** Program level.  For every script of the command language (simple commands observing their
     descriptors, exec, brace groups, subshells, loops, functions with definition and call
     redirections, arbitrarily nested, arbitrary redirection lists), every noclobber setting and
-    every initial file system: if the specification's run stays outside the listed deviation
-    classes, the model of brush's interpreter ends with the same file system (hence every command
+    every initial file system: if the specification's run stays outside the three open deviation
+    classes (exec inside a redirected construct, 0/1/2 closed for an external command, a
+    diagnostic while 2 is unusable), the model of brush's interpreter ends with the same file system (hence every command
     saw the descriptors the specification gives it: each observer writes what it sees) and the
     shell's table has the specification's flat view. *)
 Theorem c10_run_refines_spec_outside_known : forall nc m prog w P ws Ts f,
@@ -66,14 +64,28 @@ Theorem c10_program_nonvacuous : any_flag (snd (srun_script false [] ex_prog ex_
 Proof. exact ex_prog_unflagged. Qed.
 Print Assumptions c10_program_nonvacuous.
 
-(** An external command receives exactly the flat view, outside the two listed classes (one
-    of 0,1,2 closed; one of 0,1,2 a standard stream of the shell of another number). *)
+(** An external command receives exactly the flat view, outside the one open class (one of
+    0,1,2 closed). *)
 Theorem c10_child_sees_view_outside_known : forall L P T,
-  agree T L P ->
-  k_std_dup (std_flags T) = false -> k_std_closed (std_flags T) = false ->
+  agree T L P -> k_std_closed (std_flags T) = false ->
   forall n, child_view L P n = flat_lookup T n.
 Proof. exact child_sees_view_outside_known. Qed.
 Print Assumptions c10_child_sees_view_outside_known.
+
+(** Regression examples for the repaired defects (each was a known finding). *)
+Theorem c10_regress_andgreater_noclobber :
+  setup_redirect true ex_tbl ex_world [] (RBoth 2%nat false) = inr (EOpenFail 2%nat EEXIST).
+Proof. exact regress_andgreater_noclobber. Qed.
+Theorem c10_regress_selfdup_closed :
+  setup_redirect false ex_tbl ex_world [] (RDup (Some 4%nat) true 4%nat) = inl (ex_world, []).
+Proof. exact regress_selfdup_closed. Qed.
+Theorem c10_regress_std_dup : child_view [(2%nat, Some 1%nat)] ex_tbl 2%nat = Some 1%nat.
+Proof. exact regress_std_dup. Qed.
+Theorem c10_regress_compound_failure_continues :
+  let '(w, _) := run_script false [] [CGroup GBrace [CSimple [] (AEcho [105]%N)] [RDup None true 7%nat];
+                                      CSimple [] (AEcho [97]%N)] ex_world ex_tbl in
+  nth_error (files w) 2%nat = Some {| f_exists := true; f_regular := true; f_data := [97; 10]%N |}.
+Proof. exact regress_compound_failure_continues. Qed.
 
 Theorem c10_open_flags_table :
   flags_of false false RRead = fl true false false false false false /\
